@@ -566,7 +566,7 @@ pub fn run(tier: Tier, seed: u64) -> i32 {
                 }
             });
             if let Err(msg) = r {
-                viol(&report, "header", "decrypter-panic-after-4GiB", json!({"module": ["vanilla", "tbc", "wrath-client", "wrath-server"][m as usize], "bytes": total}), format!("decrypting more than 2^32 peer-supplied bytes on one connection panicked: {msg}"));
+                viol(&report, "header", "decrypter-panic-after-4GiB", json!({"module": (["vanilla", "tbc", "wrath-client", "wrath-server"][m as usize]), "bytes": total}), format!("decrypting more than 2^32 peer-supplied bytes on one connection panicked: {msg}"));
             }
         });
         hdr_calls += 4;
